@@ -214,7 +214,9 @@ func TestVerifC14Start(t *testing.T) {
 			mu.Lock()
 			for k, m := range mode {
 				// a "never" panic aborts the Range of state.notify: later notifiers of that event were not called at all
-				if m == "many" && attempts[k] > 0 && attempts[k] < 12 {
+				// wait until the loop has spent its whole budget (20 calls): nothing moves any more when the
+				// snapshots below are taken
+				if m == "many" && attempts[k] > 0 && attempts[k] < 20 {
 					ok = false
 				}
 			}
@@ -224,6 +226,7 @@ func TestVerifC14Start(t *testing.T) {
 			}
 			time.Sleep(time.Millisecond)
 		}
+		time.Sleep(5 * time.Millisecond) // the write-back of the last attempts
 		before := n1.jobs(t, refIdx)
 		// what must be there: every event a filter selects (selected); of those, everything whose subscriber did not
 		// complete it must still be on its shelf (mustRemain)
